@@ -90,49 +90,62 @@ theorem negN_bytes (need : Nat) (ds : List Nat) (sciExp : Int) (o : WOpts) (b : 
 
 theorem writePositive_eq (ds : List Nat) (e : Int) (o : WOpts) :
     writePositive ds e o =
-      (if e.toNat + 1 + (if (truncateAndRound ds o).2 = true then 1 else 0) ≥ (truncateAndRound ds o).1.length then
-        (if o.trim = true then chars (truncateAndRound ds o).1 ++
-            zeros (e.toNat + 1 + (if (truncateAndRound ds o).2 = true then 1 else 0) - (truncateAndRound ds o).1.length)
-         else chars (truncateAndRound ds o).1 ++
-            zeros (e.toNat + 1 + (if (truncateAndRound ds o).2 = true then 1 else 0) - (truncateAndRound ds o).1.length)
+      (if e.toNat + 1 + (if (roundPos ds e o).2 = true then 1 else 0) ≥ (roundPos ds e o).1.length then
+        (if o.trim = true then chars (roundPos ds e o).1 ++
+            zeros (e.toNat + 1 + (if (roundPos ds e o).2 = true then 1 else 0) - (roundPos ds e o).1.length)
+         else chars (roundPos ds e o).1 ++
+            zeros (e.toNat + 1 + (if (roundPos ds e o).2 = true then 1 else 0) - (roundPos ds e o).1.length)
             ++ [o.dp, 48] ++
-           (if minExactDigits (e.toNat + 1 + (if (truncateAndRound ds o).2 = true then 1 else 0) + 1) o >
-                e.toNat + 1 + (if (truncateAndRound ds o).2 = true then 1 else 0) + 1 then
-              zeros (minExactDigits (e.toNat + 1 + (if (truncateAndRound ds o).2 = true then 1 else 0) + 1) o -
-                (e.toNat + 1 + (if (truncateAndRound ds o).2 = true then 1 else 0) + 1)) else []))
-      else chars ((truncateAndRound ds o).1.take (e.toNat + 1 + (if (truncateAndRound ds o).2 = true then 1 else 0)))
+           (if minExactDigits (e.toNat + 1 + (if (roundPos ds e o).2 = true then 1 else 0) + 1) o >
+                e.toNat + 1 + (if (roundPos ds e o).2 = true then 1 else 0) + 1 then
+              zeros (minExactDigits (e.toNat + 1 + (if (roundPos ds e o).2 = true then 1 else 0) + 1) o -
+                (e.toNat + 1 + (if (roundPos ds e o).2 = true then 1 else 0) + 1)) else []))
+      else chars ((roundPos ds e o).1.take (e.toNat + 1 + (if (roundPos ds e o).2 = true then 1 else 0)))
         ++ [o.dp] ++
-        chars ((truncateAndRound ds o).1.drop (e.toNat + 1 + (if (truncateAndRound ds o).2 = true then 1 else 0))) ++
-        (if minExactDigits (truncateAndRound ds o).1.length o > (truncateAndRound ds o).1.length then
-          zeros (minExactDigits (truncateAndRound ds o).1.length o - (truncateAndRound ds o).1.length) else [])) := by
+        chars ((roundPos ds e o).1.drop (e.toNat + 1 + (if (roundPos ds e o).2 = true then 1 else 0))) ++
+        (if minExactDigits (roundPos ds e o).1.length o > (roundPos ds e o).1.length then
+          zeros (minExactDigits (roundPos ds e o).1.length o - (roundPos ds e o).1.length) else [])) := by
   unfold writePositive
-  generalize truncateAndRound ds o = tr
+  generalize roundPos ds e o = tr
   obtain ⟨a, c⟩ := tr
   rfl
 
 theorem chars_take_drop (l : List Nat) (n : Nat) : chars l = chars (l.take n) ++ chars (l.drop n) := by
   simp [chars]
 
+theorem chars_append (a b : List Nat) : chars (a ++ b) = chars a ++ chars b := by simp [chars]
+
 theorem posN_bytes (need : Nat) (ds : List Nat) (sciExp : Int) (o : WOpts) (b : WBuf) (r : Out)
     (hds : 1 ≤ ds.length) (hmx : o.maxDigits ≠ some 0) (h : posN need ds sciExp o b = .ok r) :
     r.buf.bytes.take r.cursor = writePositive ds sciExp o := by
   unfold posN at h
   rw [writePositive_eq]
+  unfold roundPos
   obtain ⟨hl1, hl2, _, _⟩ := truncateAndRound_length ds o hds hmx
   generalize truncateAndRound ds o = tr at h hl1 hl2 ⊢
   obtain ⟨ds', c⟩ := tr
   dsimp only at h hl1 hl2 ⊢
   generalize sciExp.toNat + 1 + (if c = true then 1 else 0) = leading at h ⊢
+  -- the kept digits are a prefix of the rounded digits (which are what the buffer holds)
+  obtain ⟨suf, hsuf⟩ : ∃ suf, ds' = trimPos o leading ds' ++ suf := by
+    rcases trimPos_cases o leading ds' with h' | ⟨h', _⟩
+    · exact ⟨[], by rw [h']; simp⟩
+    · exact ⟨ds'.drop leading, by rw [h']; simp⟩
+  generalize trimPos o leading ds' = K at h hsuf ⊢
+  subst hsuf
+  rw [chars_append] at h
   simp only [bind_ok_iff, demand_ok_iff, blit_ok_iff] at h
   obtain ⟨u, h1, b1, ⟨h2, rfl⟩, b2, ⟨h3, rfl⟩, h4⟩ := h
-  simp only [put_len, put_length, WBuf.len, chars_length] at h1 h2 h3
+  simp only [put_len, put_length, WBuf.len, chars_length, List.length_append] at h1 h2 h3 hl1 hl2
   have hD : (chars ds).length = ds.length := chars_length ds
   generalize chars ds = D at hD h4 ⊢
-  by_cases c1 : leading ≥ ds'.length
+  have hS : (chars suf).length = suf.length := chars_length suf
+  generalize chars suf = S at hS h4 ⊢
+  by_cases c1 : leading ≥ K.length
   · simp only [c1, ↓reduceIte, bind_ok_iff, fill_ok_iff] at h4 ⊢
     obtain ⟨b3, ⟨h5, rfl⟩, h6⟩ := h4
-    have hT : (chars ds').length = ds'.length := chars_length ds'
-    generalize chars ds' = T at hT h6 ⊢
+    have hT : (chars K).length = K.length := chars_length K
+    generalize chars K = T at hT h6 ⊢
     by_cases c3 : o.trim = true
     · simp only [c3, not_true_eq_false, ↓reduceIte, Res.ok.injEq] at h6 ⊢
       subst h6
@@ -152,35 +165,35 @@ theorem posN_bytes (need : Nat) (ds : List Nat) (sciExp : Int) (o : WOpts) (b : 
         finish_bytes
   · simp only [c1, ↓reduceIte, bind_ok_iff, demand_ok_iff, blit_ok_iff, set_ok_iff, padZeros_ok_iff] at h4 ⊢
     obtain ⟨u2, h5, b3, ⟨h6, rfl⟩, b4, ⟨h7, rfl⟩, h9⟩ := h4
-    have hsplit := chars_take_drop ds' leading
-    have hA : (chars (ds'.take leading)).length = leading := by simp; omega
-    have hB : (chars (ds'.drop leading)).length = ds'.length - leading := by simp
-    generalize chars (ds'.take leading) = A at hA hsplit ⊢
-    generalize chars (ds'.drop leading) = B at hB hsplit h5 h6 h7 h9 ⊢
+    have hsplit := chars_take_drop K leading
+    have hA : (chars (K.take leading)).length = leading := by simp; omega
+    have hB : (chars (K.drop leading)).length = K.length - leading := by simp
+    generalize chars (K.take leading) = A at hA hsplit ⊢
+    generalize chars (K.drop leading) = B at hB hsplit h5 h6 h7 h9 ⊢
     rw [hsplit] at h5 h6 h7 h9
     simp only [put_len, put_length, WBuf.len, List.length_append] at h5 h6 h7 h9
-    by_cases c4 : ds'.length < minExactDigits ds'.length o
-    · have c4' : minExactDigits ds'.length o > ds'.length := c4
+    by_cases c4 : K.length < minExactDigits K.length o
+    · have c4' : minExactDigits K.length o > K.length := c4
       simp only [c4, c4', ↓reduceIte] at h9 ⊢
       obtain ⟨h11, rfl⟩ := h9
       finish_bytes
-    · have c4' : ¬ minExactDigits ds'.length o > ds'.length := c4
+    · have c4' : ¬ minExactDigits K.length o > K.length := c4
       simp only [c4, c4', ↓reduceIte] at h9 ⊢
       subst h9
       finish_bytes
 
 theorem writeScientific_eq (fmt : Format) (feats : Features) (ds : List Nat) (e : Int) (o : WOpts) (r : Nat) :
     writeScientific fmt feats ds e o r =
-      (if ¬ fmt.noExponentWithoutFraction = true ∧ (truncateAndRound ds o).1.length = 1 ∧ o.trim = true then
-         [digitChar ((truncateAndRound ds o).1.headD 0)]
-       else if (truncateAndRound ds o).1.length < minExactDigits (truncateAndRound ds o).1.length o then
-         [digitChar ((truncateAndRound ds o).1.headD 0), o.dp] ++ chars (truncateAndRound ds o).1.tail ++
-           zeros (minExactDigits (truncateAndRound ds o).1.length o - (truncateAndRound ds o).1.length)
-       else if (truncateAndRound ds o).1.length = 1 then [digitChar ((truncateAndRound ds o).1.headD 0), o.dp, 48]
-       else [digitChar ((truncateAndRound ds o).1.headD 0), o.dp] ++ chars (truncateAndRound ds o).1.tail)
-      ++ writeExponent fmt feats (e + (if (truncateAndRound ds o).2 = true then 1 else 0)) o.exp r := by
+      (if ¬ fmt.noExponentWithoutFraction = true ∧ (roundSci ds o).1.length = 1 ∧ o.trim = true then
+         [digitChar ((roundSci ds o).1.headD 0)]
+       else if (roundSci ds o).1.length < minExactDigits (roundSci ds o).1.length o then
+         [digitChar ((roundSci ds o).1.headD 0), o.dp] ++ chars (roundSci ds o).1.tail ++
+           zeros (minExactDigits (roundSci ds o).1.length o - (roundSci ds o).1.length)
+       else if (roundSci ds o).1.length = 1 then [digitChar ((roundSci ds o).1.headD 0), o.dp, 48]
+       else [digitChar ((roundSci ds o).1.headD 0), o.dp] ++ chars (roundSci ds o).1.tail)
+      ++ writeExponent fmt feats (e + (if (roundSci ds o).2 = true then 1 else 0)) o.exp r := by
   unfold writeScientific
-  generalize truncateAndRound ds o = tr
+  generalize roundSci ds o = tr
   obtain ⟨a, c⟩ := tr
   simp
 
@@ -190,25 +203,36 @@ theorem sciN_bytes (fmt : Format) (feats : Features) (need : Nat) (ds : List Nat
     r.buf.bytes.take r.cursor = writeScientific fmt feats ds sciExp o fmt.exponentRadix := by
   unfold sciN at h
   rw [writeScientific_eq]
+  unfold roundSci
   obtain ⟨hl1, hl2, _, _⟩ := truncateAndRound_length ds o hds hmx
   generalize truncateAndRound ds o = tr at h hl1 hl2 ⊢
   obtain ⟨ds', c⟩ := tr
   dsimp only at h hl1 hl2 ⊢
+  -- the kept digits are a non-empty prefix of the rounded digits (which are what the buffer holds)
+  have hk1 := (trimSci_length o ds' hl1).1
+  obtain ⟨suf, hsuf⟩ : ∃ suf, ds' = trimSci o ds' ++ suf := by
+    rcases trimSci_cases o ds' with h' | h'
+    · exact ⟨[], by rw [h']; simp⟩
+    · exact ⟨ds'.drop 1, by rw [h']; exact (List.take_append_drop 1 ds').symm⟩
+  generalize trimSci o ds' = K at h hsuf hk1 ⊢
+  subst hsuf
   simp only [bind_ok_iff, demand_ok_iff, blit_ok_iff, get_ok_iff, set_ok_iff] at h
   obtain ⟨u, h1, b1, ⟨h2, rfl⟩, b2, ⟨h3, rfl⟩, x, ⟨h4, rfl⟩, b3, ⟨h5, rfl⟩, b4, ⟨h6, rfl⟩, r1, h7, h8⟩ := h
-  simp only [put_len, put_length, WBuf.len, chars_length] at h1 h2 h3 h4 h5 h6
-  cases ds' with
-  | nil => simp at hl1
+  simp only [put_len, put_length, WBuf.len, chars_length, List.length_append] at h1 h2 h3 h4 h5 h6 hl2
+  cases K with
+  | nil => simp at hk1
   | cons d rest =>
     have hR : (chars rest).length = rest.length := chars_length rest
-    have hcons : chars (d :: rest) = digitChar d :: chars rest := by simp [chars]
+    have hS : (chars suf).length = suf.length := chars_length suf
+    have hcons : chars (d :: rest ++ suf) = digitChar d :: (chars rest ++ chars suf) := by simp [chars]
     have hD : (chars ds).length = ds.length := chars_length ds
     simp only [List.length_cons] at hl2 h3 h7 ⊢
     simp only [List.headD_cons, List.tail_cons] at h7 ⊢
     rw [hcons] at h7
     generalize chars rest = R at hR h7 ⊢
+    generalize chars suf = S at hS h7
     generalize chars ds = D at hD h7
-    have hx : (((b.put 1 D).put 1 (digitChar d :: R)).bytes.getD 1 0) = digitChar d := by
+    have hx : (((b.put 1 D).put 1 (digitChar d :: (R ++ S))).bytes.getD 1 0) = digitChar d := by
       simp only [put_getD, put_length, List.length_cons]
       simp only [List.getD_eq_getElem?_getD]
       grind
@@ -217,7 +241,7 @@ theorem sciN_bytes (fmt : Format) (feats : Features) (need : Nat) (ds : List Nat
       (by simp only [put_length]; omega) (by simp only [put_length]; intro _; omega) (by simp)
       (by
         intro hle i hi
-        simp only [put_getD, put_length, List.length_cons, List.length_nil]
+        simp only [put_getD, put_length, List.length_cons, List.length_nil, List.length_append]
         simp only [List.getD_eq_getElem?_getD]
         grind) h7
     obtain ⟨hl, hbytes⟩ := hbody
